@@ -85,6 +85,7 @@ type LockDecl struct {
 	Field    string
 	Protects []string
 	Invs     []Clause
+	Rely     []Clause // two-state relation (old() = earlier state): guaranteed by every write section, assumed on re-acquisition
 }
 
 func (t *TypeContract) lockDecl(field string) *LockDecl {
@@ -140,7 +141,7 @@ var clauseKeywords = map[string]bool{
 	"func": true, "type": true, "tags": true, "mode": true, "requires": true, "modifies": true, "ensures": true,
 	"loop": true, "at": true, "ghost": true, "invariant": true, "pure": true, "axiom": true, "lemma": true,
 	"trusted": true, "panics": true, "noreturn": true, "params": true, "results": true, "skip": true, "sweep": true,
-	"ifaceghost": true, "assume-text": true, "opt": true, "smt": true, "replay": true, "intview": true, "lock": true, "lockinv": true,
+	"ifaceghost": true, "assume-text": true, "opt": true, "smt": true, "replay": true, "intview": true, "lock": true, "lockinv": true, "rely": true,
 }
 
 var labelRe = regexp.MustCompile(`^\[([A-Za-z0-9_.\-]+)\]\s*`)
@@ -472,6 +473,23 @@ func (c *Contracts) loadFile(path, pkg string, trusted bool) error {
 				return err
 			}
 			ld.Invs = append(ld.Invs, cl)
+		case "rely":
+			if curT == nil {
+				return fmt.Errorf("%s:%d: rely outside type", path, rc.line)
+			}
+			fs := strings.SplitN(rc.text, " ", 2)
+			if len(fs) < 2 {
+				return fmt.Errorf("%s:%d: rely <lockfield> <two-state expr>", path, rc.line)
+			}
+			ld := curT.lockDecl(fs[0])
+			if ld == nil {
+				return fmt.Errorf("%s:%d: rely for undeclared lock %s", path, rc.line, fs[0])
+			}
+			cl, err := mkClause(strings.TrimSpace(fs[1]), rc.line)
+			if err != nil {
+				return err
+			}
+			ld.Rely = append(ld.Rely, cl)
 		case "intview":
 			if curF == nil {
 				return fmt.Errorf("%s:%d: intview outside func", path, rc.line)
